@@ -655,8 +655,8 @@ pub fn run_depth(name: &str, depths: &[usize], cx: &ShardCtx) -> UnitResult {
 
 pub fn run_define_twice(name: &str, cx: &ShardCtx) -> UnitResult {
     let mut r = UnitResult { name: name.to_string(), exhaustive: true, ..Default::default() };
+    r.desc = "defining a declared parser a second time (directly, through a clone, after a parse) panics and the message names the definition site".into();
     if cx.shard != 0 {
-        r.desc = "second define() is refused".into();
         return r;
     }
     type EP<'a> = extra::Err<chumsky::error::Cheap>;
